@@ -64,6 +64,13 @@ func (t *TempoController) Trace(w http.ResponseWriter, r *http.Request) {
 		PromError(500, err.Error(), w)
 		return
 	}
+	// the goroutine that sends the spans does so unconditionally: whatever takes this handler out of its
+	// receive loops before the channel is closed (a span that cannot be rendered, a recovered panic) must
+	// still let it finish
+	defer func() {
+		for range res {
+		}
+	}()
 
 	switch accept {
 	case "application/protobuf":
